@@ -16,7 +16,7 @@ from __future__ import annotations
 import copy
 import itertools
 
-from vx import campaign, progs
+from vx import campaign, harness, progs
 
 RULE = ("generated ASTs with adversarial literal payloads plus exhaustive short payloads in 40 fixed contexts; "
         "non-trivial = some payload contains a syntax-significant character and its literal sits inside a structure "
@@ -233,8 +233,68 @@ def _shard_hyp(rec, arg):
     campaign.hyp_run(t, {"p": progs.program_strategy(4, hot=True)}, seed, n)
 
 
+# ---- execution tier: two literals at different depths; swapping payloads changes only the two pushed values ----------
+# (the parse-tree oracle cannot see a payload-dependent slip made after parsing, e.g. in how a literal is lowered)
+def _q(v, kind):
+    if kind == "str":
+        return "`" + v.replace("\\", "\\\\").replace("`", "\\`") + "`"
+    if kind == "two":
+        return "‛" + v
+    return "\\" + v
+
+
+PAIR_TEMPLATES = [
+    # (name, program with {A} {B}, expected final stack as a function of the two denoted values)
+    ("seq-then-if", "{A} 1[{B}|0]", lambda a, b: [a, b]),
+    ("else-branch", "0[{A}|{B}]", lambda a, b: [b]),
+    ("for-body", "{A} 2({B})", lambda a, b: [a, b, b]),
+    ("lambda-then-nested-if", "λ{A};† 1[1[{B}]]", lambda a, b: [a, b]),
+    ("list-items", "⟨{A}|1[{B}]⟩", lambda a, b: [[a, b]]),
+    ("function-then-loop-in-if", "@f|{A};1[2({B})]@f;", lambda a, b: [b, b, a]),
+    ("deep-then-shallow", "1[1[1[{A}]]] {B}", lambda a, b: [a, b]),
+    ("while-once", "{A} 1{:|{B}$‹}_", lambda a, b: [a, b]),
+]
+
+
+def check_pair(tname, kind, pa, pb):
+    tpl = {t[0]: t for t in PAIR_TEMPLATES}[tname]
+    text = tpl[1].replace("{A}", _q(pa, kind)).replace("{B}", _q(pb, kind))
+    want = harness.norm(tpl[2](pa, pb))
+    r = harness.run_program(text, dict_compress=False, budget=300_000)
+    if r.exc is not None:
+        return (f"C03:exec-pair:{kind}:raises:{type(r.exc).__name__}", f"program {text!r} (compression off) raised {type(r.exc).__name__}: {r.exc}; with other payloads of the same kind it leaves {tpl[2]('A', 'B')!r}")
+    got = harness.norm(r.stack)
+    if got != want:
+        return (f"C03:exec-pair:{kind}:{'equal-payloads' if pa == pb else 'value'}", f"program {text!r} (compression off) left {harness.jsonable(got)!r}, expected {harness.jsonable(want)!r}: "
+                f"the payloads changed more than the two pushed values")
+    return None
+
+
+def _shard_pairs(rec, arg):
+    shard, nshards, full = arg
+    chars = progs.SYNTAX_SIGNIFICANT + ["a", "\\", "`", '"']
+    i = 0
+    for tname, _, _ in PAIR_TEMPLATES:
+        for kind in ("str", "two", "chr"):
+            for ca in chars:
+                for cb in (chars if full else [ca, chars[(chars.index(ca) * 7 + 3) % len(chars)], "|", "]"]):
+                    i += 1
+                    if i % nshards != shard:
+                        continue
+                    pa, pb = (ca, cb) if kind != "two" else (ca + ca, cb + cb)
+                    if kind in ("two", "chr") and ("\\" in pa + pb):
+                        continue  # what a backslash denotes inside these kinds is C06's business, not grouping
+                    r = check_pair(tname, kind, pa, pb)
+                    rec.case(nontrivial=True, cls=["execution-pairs", f"pair-template {tname}"])
+                    if r:
+                        rec.fail(r[0], {"pair": [tname, kind, pa, pb]}, r[1])
+
+
 def run(rec, tier, seed):
     quick = tier == "quick"
+    campaign.parallel(rec, _shard_pairs, [(s, campaign.NCPU, not quick) for s in range(campaign.NCPU)])
+    rec.exhaustive.append(f"execution tier: {len(PAIR_TEMPLATES)} two-literal templates x 3 kinds x payload pairs over the syntax-significant characters "
+                          + ("(all pairs)" if not quick else "(equal pair, one other, |, ])"))
     ns = campaign.NCPU
     maxlen = 1 if quick else 2
     campaign.parallel(rec, _shard_exh, [(s, ns, maxlen) for s in range(ns)])
@@ -246,6 +306,13 @@ def run(rec, tier, seed):
 
 
 def replay(case):
+    if "pair" in case:
+        tname, kind, pa, pb = case["pair"]
+        if tname not in {t[0] for t in PAIR_TEMPLATES} or kind not in ("str", "two", "chr") or not all(isinstance(x, str) and 1 <= len(x) <= 2 for x in (pa, pb)):
+            return None
+        if kind == "two" and (len(pa) != 2 or len(pb) != 2) or kind != "two" and (len(pa) != 1 or len(pb) != 1):
+            return None
+        return check_pair(tname, kind, pa, pb)
     ast = case["ast"]
     progs.validate(ast)
     return check_ast(ast)
